@@ -246,3 +246,24 @@ impl HostBytes {
   weaken_thunk_patterns
 @*/
 /*@end*/
+/*@type lang/dynamics/src/impls.rs :: struct ArgumentFold @*/
+impl ArgumentFold {
+/*@fn lang/dynamics/src/impls.rs :: impl ArgumentFold :: fn tail
+  plain
+@*/
+/*@end*/
+/*@fn lang/dynamics/src/impls.rs :: impl ArgumentFold :: fn item
+  plain
+@*/
+/*@end*/
+/*@fn lang/dynamics/src/impls.rs :: impl ArgumentFold :: fn build
+  plain
+@*/
+/*@end*/
+}
+/*@fn lang/dynamics/src/impls.rs :: fn arg_fold
+  plain
+  vec_as_slice args
+  weaken_thunk_patterns
+@*/
+/*@end*/
